@@ -96,7 +96,7 @@ func check(prop, tier string) int {
 		fmt.Printf("property %s is not claimed (see MANIFEST.json not_applicable)\n", prop)
 		return 2
 	}
-	timeout := 15
+	timeout := 30
 	if tier == "thorough" {
 		timeout = 90
 	}
